@@ -24,7 +24,10 @@ What is proved about "never silently accepts an inconsistent state":
 * honest executions never abort: `C15_kos_complete` (one call), for every content
   of the caller-provided `result` slice `C15_kos_complete_any_buffer`, and for
   every HISTORY of calls on one pair with named result buffers
-  `C15_kos_history_never_aborts` (Model/KosBuf.lean);
+  `C15_kos_history_never_aborts` (Model/KosBuf.lean), and for every MIXED history
+  (malicious-mode calls interleaved with semi-honest label calls and packed-bit
+  calls, which share the per-column streams) `C15_kos_mixed_history_never_aborts`
+  (Model/KosMix.lean on top of C06's Model/IknpBuf.lean);
 * deterministic corollaries: `C15_kos_complete`, `C15_kos_unselected_harmless`,
   `C15_kos_single_row_sound`, `C15_kos_response_sound`;
 * alterations as SETS of positions (any number of flips, response intact):
@@ -64,6 +67,7 @@ import MpcVerif.Proofs.Clmul
 import MpcVerif.Proofs.Kos
 import MpcVerif.Proofs.KosSet
 import MpcVerif.Proofs.KosBuf
+import MpcVerif.Proofs.KosMix
 
 namespace Mpc
 open Mpc.Iknp Mpc.Clmul Mpc.Kos
@@ -197,6 +201,54 @@ example : (zerosL 3).size = 3 ∧
   simp only [List.mem_cons, List.mem_nil_iff, or_false] at hc
   rcases hc with rfl | rfl | rfl
   all_goals simp [KCall.WF, BufSrc.WF]
+
+/-- Honest executions never abort, MIXED histories: any number of calls of ALL
+kinds on one initialised pair, in any order - malicious-mode label calls (with
+the consistency check), semi-honest label calls and packed-bit calls
+(`SendBits` / `ReceiveBits`; C06's `Iknp.runCallB`, reused by import), every
+call naming its result buffers.  The per-column PRG stream positions of both
+parties (`RecvSt`, `SendSt`: one position per column and party) are threaded
+through the whole history, whatever kind of call moved them.  Every call runs
+to completion, every malicious-mode call is ACCEPTED by the sender ("OT
+extension check failed" is not reached) and correlated (`KSpec`), every other
+call meets C06's `CallSpecB`. -/
+theorem C15_kos_mixed_history_never_aborts (X : Label → Nat → Label) (R0 R1 SS : Nat → Nat → Byte) (delta : Label)
+    (hb : BaseOK R0 R1 SS delta) (SL SW : Nat) (ar : Arena) (har : ar.Sized SL SW)
+    (cs : List MCall) (hwf : ∀ c ∈ cs, c.WF SL SW) :
+    ∃ outs, sessionM Store.assign .write X R0 R1 SS delta RecvSt.init SendSt.init ar cs = some outs ∧
+      outs.length = cs.length ∧
+      ∀ k (hk : k < cs.length) (hk' : k < outs.length), MSpec delta cs[k] outs[k] :=
+  sessionM_ok X R0 R1 SS delta hb SL SW cs _ _ ar InStep.init har hwf
+
+/-- Non-vacuity: packed bits, then a malicious-mode call, a semi-honest one,
+packed bits again and a second malicious-mode call into the first one's slice. -/
+example : (Arena.mk (zerosL 3) (zerosW 2) (zerosW 2)).Sized 3 2 ∧
+    ∀ c ∈ [MCall.plain (.bits 70 #[5#64, 1#64] .fresh (.arena none 0 0)),
+           MCall.kos ⟨#[true, false], 1#128, 2#128, 3#128, .arena none 0 0⟩,
+           MCall.plain (.labels false #[true] 0#128 0#128 .fresh),
+           MCall.plain (.bits 1 #[1#64] (.arena none 1 0) .fresh),
+           MCall.kos ⟨#[false, true], 4#128, 5#128, 6#128, .arena none 0 0⟩], c.WF 3 2 := by
+  refine ⟨⟨by simp [zerosL], by simp [zerosW], by simp [zerosW]⟩, ?_⟩
+  intro c hc
+  simp only [List.mem_cons, List.mem_nil_iff, or_false] at hc
+  rcases hc with rfl | rfl | rfl | rfl | rfl
+  all_goals simp [MCall.WF, KCall.WF, CallB.WF, BufSrc.WF]
+
+/-- The hypothesis that carries the mixed histories is `InStep` in ALL 128
+columns: a party whose call advances only the stream of column 0 (the only
+column the packed-bit form reads after the transpose) by `d > 0` leaves the
+pair out of step, so no theorem of this file applies to the calls that follow
+(the driver's op `mhist0` runs that variant: the next malicious-mode call
+aborts). -/
+theorem C15_kos_mixed_needs_all_columns (rs : RecvSt) (ss : SendSt) (hs : InStep rs ss) (d : Nat) (hd : 0 < d) :
+    ¬ InStep (rs.adv d) ⟨fun i => if i = 0 then ss.p 0 + d else ss.p i⟩ := by
+  intro h
+  have h1 := (h 1).1
+  have h2 := (hs 1).1
+  simp [RecvSt.adv] at h1
+  omega
+
+example : InStep RecvSt.init SendSt.init ∧ 0 < 8 := ⟨InStep.init, by decide⟩
 
 /-- `kos_accept_iff`: the exact acceptance condition.  The receiver runs
 honestly; in transit the error masks `E1` (chunks of the payload batch) and
